@@ -204,7 +204,9 @@ fn render_cell(cx: &mut Ctx, c: &CellSpec, col: u32, row: u32, excluded: &mut Ve
             }
             let mut enc = c.enc % 4;
             if formula.is_some() {
-                enc = 3;
+                // the cached text of a formula: <v> of t="str" (what Excel writes) or, for a
+                // quarter of the cases, an inline string next to the <f> (CT_Cell: f?, v?, is?)
+                enc = if c.enc % 8 >= 6 { 2 } else { 3 };
                 if looks_like_xstring(&text) {
                     // the cached result of a formula is written into <v> (t="str"); no
                     // producer writes t="s" next to <f>, so the escape look-alike is avoided here
@@ -213,7 +215,8 @@ fn render_cell(cx: &mut Ctx, c: &CellSpec, col: u32, row: u32, excluded: &mut Ve
                 }
             }
             if enc == 2 && guessable(&text) && cx.steer.inline_guess {
-                enc = 0;
+                // never t="s" next to <f> (no producer writes it; the library drops the formula there)
+                enc = if formula.is_some() { 3 } else { 0 };
                 excluded.push("inlineStr-type-guess");
             }
             if looks_like_xstring(&text) {
